@@ -176,11 +176,17 @@ def compose(Ds, f):
 
 def eval_stack(ns, api, kinds, fshape, placement, st):
     Ds = [ns['D%d_%s' % (i + 1, k)] for i, k in enumerate(kinds)]
+    sigattr = placement.endswith('_sig')
+    placement = placement[:-4] if sigattr else placement
     method = placement == 'method'
     f = make_f(fshape, method)
-    case = {'api': api, 'kinds': list(kinds), 'f': space.to_json(fshape), 'placement': placement}
+    if sigattr:
+        # the decorated function carries an explicit __signature__ of its own (as modifiers.annotate leaves one)
+        from sigtools import signatures as S_
+        f.__signature__ = S_.signature(f)
+    case = {'api': api, 'kinds': list(kinds), 'f': space.to_json(fshape), 'placement': placement + ('_sig' if sigattr else '')}
     base = {'api': api, 'decorators': [D.__name__ + str(inspect.signature(D)) for D in Ds],
-            'decorated': 'def f' + str(inspect.signature(f)), 'placement': placement}
+            'decorated': 'def f' + str(inspect.signature(f)) + (' with f.__signature__ set' if sigattr else ''), 'placement': placement}
     st.inc('states')
     try:
         g = f
@@ -295,7 +301,7 @@ def work_items(tier):
     items = []
     for api in ('decorator', 'wrapper_decorator'):
         for kind in OWN:
-            for placement in ('function', 'method', 'staticmethod'):
+            for placement in ('function', 'method', 'staticmethod', 'function_sig', 'method_sig'):
                 for i in range(0, len(fs), 40):
                     items.append(('stack', api, (kind,), placement, i, min(len(fs), i + 40)))
     reps = [s for s in fs if len(s) <= 2][:12] if tier == 'quick' else [s for s in fs if len(s) <= 3][:40]
